@@ -432,6 +432,8 @@ TREE = {
     't/root/x/a', 't/root/sub_evil/x.txt',
     't/root_evil/secret.txt', 't/root_evil/a', 't/root_evil/sub/deep.txt', 't/root_evil/root/x',
     't/rootx', 't/root.bak/in.txt', 't/other/in.txt', 't/roo/in.txt',
+    # siblings that differ from the root only in case (a case-folding comparison would take them for the root)
+    't/Root/in.txt', 't/ROOT/sub/in.txt',
     'elsewhere/data.txt',
     # files INSIDE the root whose literal names contain backslashes (ordinary characters on POSIX): the name validates as
     # inside, the File handle built from it stores the name with '\\' turned into '/', i.e. a path that leaves the root
@@ -454,7 +456,8 @@ ESCAPE_KEYS = ('escape-', 'handle-escape-', 'history-escape-')
 OPS = ['contains', 'getitem', 'open_bin', 'open_str', 'walk', 'after_loose', 'handle_loose', 'handle_made']
 SUB_OPS = ['contains', 'getitem', 'open_bin', 'open_str', 'walk']
 SEGS = ['..', '..', '.', '', 'in.txt', 'a', 'sub', 'deep.txt', 'root', 'root_evil', 'secret.txt', 't', 'rootx', 'root.bak',
-        'sub_evil', 'x.txt', 'x', 'above.txt', 'top.txt', 'other', 'roo', 'nested.txt', 'elsewhere', 'data.txt']
+        'sub_evil', 'x.txt', 'x', 'above.txt', 'top.txt', 'other', 'roo', 'nested.txt', 'elsewhere', 'data.txt',
+        'Root', 'ROOT', ' ..', '.. ', '%2e%2e', '\uff0e\uff0e']
 
 _events: list | None = None
 _obs_thread = 0
@@ -725,7 +728,10 @@ def run_op(base: str, root_spec: str, chain_prefix, op: str, path_t: str, cold: 
               and not is_inside(root, os.path.join(base, d.strip()[len('CONTENT-OF:'):]))]
     # an existence test / lookup that answers (instead of raising) about a name that lexically leads out of the root has
     # told the caller something about the outside, even when a cache made the OS call unnecessary
-    target = os.path.normpath(os.path.join(root, chain_prefix or '', path.replace('\\', '/')))
+    # (where the name leads: a chain joins its prefix first and then turns the slashes, so '\\in.txt' under prefix 'sub' is
+    # 'sub//in.txt'; a RawFileSystem turns the slashes of the name and joins it to the root)
+    rel = path.replace('\\', '/') if chain_prefix is None else os.path.join(chain_prefix, path).replace('\\', '/')
+    target = os.path.normpath(os.path.join(root, rel))
     answered_outside = [[a, target] for a in answers if not is_inside(root, target)]
     pre_escapes = 0
     if chain_prefix:
@@ -811,9 +817,15 @@ def search_trees(ck: Ck) -> None:
     # 1. corpus + targeted spellings of every tree entry, every root configuration
     for label, root_spec in ROOT_CONFIGS:
         root_abs_t = '{BASE}/t/root/sub' if label == 'nested' else '{BASE}/t/root'
-        tp = ['../root_evil/secret.txt', '..\\root_evil\\secret.txt', '../root_evil', '../rootx', '../root.bak/in.txt',
-              '{BASE}/t/root_evil/secret.txt', '../sub_evil/x.txt', '..\\above.txt', '..\\in.txt', '../above.txt',
-              '../in.txt', 'sub\\..\\..\\above.txt'] + targeted_paths(base, root_abs_t)
+        corpus = ['../root_evil/secret.txt', '..\\root_evil\\secret.txt', '../root_evil', '../rootx', '../root.bak/in.txt',
+                  '{BASE}/t/root_evil/secret.txt', '../sub_evil/x.txt', '..\\above.txt', '..\\in.txt', '../above.txt',
+                  '../in.txt', 'sub\\..\\..\\above.txt',
+                  # names that are inside the root as they stand and lead out of it after a transformation somebody might
+                  # apply between the check and the use (strip, Unicode NFKC, URL unquoting, case folding, ~ / $VAR expansion)
+                  ' ../above.txt', '../above.txt ', '\uff0e\uff0e/above.txt', '%2e%2e/above.txt', '..%2fabove.txt',
+                  '../Root/in.txt', '../ROOT/sub/in.txt', '{BASE}/T/ROOT/../above.txt', '~/../above.txt', '$PWD/../above.txt',
+                  '..\u2215above.txt', 'sub/\u2025/above.txt']
+        tp = corpus + targeted_paths(base, root_abs_t)
         for cp in CHAIN_PREFIXES:
             if cp is not None and label not in ('abs', 'relative', 'nested'):
                 continue
@@ -822,7 +834,7 @@ def search_trees(ck: Ck) -> None:
                 for op in ops:
                     # the history op costs ten operations: in the quick tier on the corpus and every second spelling; the
                     # plain operations on the same name come first in `ops` and say whether an escape needs the history
-                    if op == 'after_loose' and not (ck.thorough or ck.tie_broken or k < 12 or k % 2 == 0):
+                    if op == 'after_loose' and not (ck.thorough or ck.tie_broken or k < len(corpus) or k % 2 == 0):
                         continue
                     case(label, root_spec, cp, op, path_t, cold=False)
     # 2. random segment paths
